@@ -16,11 +16,33 @@ Fixpoint value_le (B : Z) (l : list Z) : Z :=
   | d :: l' => d + value_le B l' * B
   end.
 
+(* quotient and remainder with one traversal; base 256 by shifting (fast under vm_compute) *)
+Definition divmod (B n : Z) : Z * Z :=
+  if B =? 256 then (Z.shiftr n 8, Z.land n 255) else Z.div_eucl n B.
+
 Fixpoint digits_le (B : Z) (fuel : nat) (n : Z) : list Z :=
   match fuel with
   | O => []
-  | S f => if n <=? 0 then [] else (n mod B) :: digits_le B f (n / B)
+  | S f => if n <=? 0 then [] else let (q, r) := divmod B n in r :: digits_le B f q
   end.
+
+Lemma divmod_spec B n : 0 <= n -> divmod B n = (n / B, n mod B).
+Proof.
+  intros Hn. unfold divmod. destruct (B =? 256) eqn:E.
+  - apply Z.eqb_eq in E. subst B. f_equal.
+    + rewrite Z.shiftr_div_pow2 by lia. reflexivity.
+    + change 255 with (Z.ones 8). rewrite Z.land_ones by lia. reflexivity.
+  - unfold Z.div, Z.modulo. destruct (Z.div_eucl n B). reflexivity.
+Qed.
+
+Lemma digits_le_S B f n : 0 < n -> digits_le B (S f) n = (n mod B) :: digits_le B f (n / B).
+Proof.
+  intros Hn. cbn [digits_le]. destruct (n <=? 0) eqn:E; [lia|].
+  rewrite divmod_spec by lia. reflexivity.
+Qed.
+
+Lemma digits_le_S0 B f n : n <= 0 -> digits_le B (S f) n = [].
+Proof. intros Hn. cbn [digits_le]. destruct (n <=? 0) eqn:E; [reflexivity|lia]. Qed.
 
 (* enough fuel for any base >= 2: one more than the number of bits *)
 Definition fuel_of (n : Z) : nat := S (Z.to_nat (Z.log2 n)).
@@ -52,7 +74,8 @@ Lemma digits_le_value B : 2 <= B -> forall f n,
 Proof.
   intros HB; induction f as [|f IH]; intros n Hn.
   - cbn in Hn. cbn. lia.
-  - cbn [digits_le]. destruct (n <=? 0) eqn:E; [cbn; lia|].
+  - destruct (Z_le_gt_dec n 0) as [L|G]; [rewrite digits_le_S0 by lia; cbn; lia|].
+    rewrite digits_le_S by lia.
     cbn [value_le]. rewrite IH.
     + pose proof (Z.div_mod n B). lia.
     + split; [apply Z.div_pos; lia|].
@@ -63,8 +86,9 @@ Qed.
 
 Lemma digits_le_ok B : 2 <= B -> forall f n, 0 <= n -> Forall (digit_ok B) (digits_le B f n).
 Proof.
-  intros HB; induction f as [|f IH]; intros n Hn; cbn [digits_le]; [constructor|].
-  destruct (n <=? 0); constructor.
+  intros HB; induction f as [|f IH]; intros n Hn; [constructor|].
+  destruct (Z_le_gt_dec n 0) as [L|G]; [rewrite digits_le_S0 by lia; constructor|].
+  rewrite digits_le_S by lia. constructor.
   - unfold digit_ok. apply Z.mod_pos_bound. lia.
   - apply IH. apply Z.div_pos; lia.
 Qed.
@@ -79,7 +103,7 @@ Proof.
     assert (Hpos : 0 < value_le B (d :: l)).
     { apply value_le_pos; auto; [discriminate|]. destruct Htr; [discriminate|assumption]. }
     destruct f as [|f]; [change (2 ^ Z.of_nat 0) with 1 in Hv; lia|].
-    cbn [digits_le]. destruct (value_le B (d :: l) <=? 0) eqn:E; [lia|].
+    rewrite digits_le_S by lia.
     cbn [value_le] in *.
     pose proof (value_le_nonneg B l HB Hl) as Hnn.
     assert (Hm : (d + value_le B l * B) mod B = d).
@@ -115,8 +139,9 @@ Proof. intros; apply digits_le_ok; auto. Qed.
 
 Lemma digits_le_trimmed B : 2 <= B -> forall f n, 0 <= n < 2 ^ Z.of_nat f -> trimmed (digits_le B f n).
 Proof.
-  intros HB; induction f as [|f IH]; intros n Hn; cbn [digits_le]; [left; reflexivity|].
-  destruct (n <=? 0) eqn:E; [left; reflexivity|]. right.
+  intros HB; induction f as [|f IH]; intros n Hn; [left; reflexivity|].
+  destruct (Z_le_gt_dec n 0) as [L|G]; [rewrite digits_le_S0 by lia; left; reflexivity|].
+  rewrite digits_le_S by lia. right.
   assert (Hq : 0 <= n / B < 2 ^ Z.of_nat f).
   { split; [apply Z.div_pos; lia|].
     rewrite Nat2Z.inj_succ, Z.pow_succ_r in Hn by lia.
